@@ -119,6 +119,12 @@ func (ke *KeyExchange) SetPeerParameters(peerPub *ecdsa.PublicKey, peerUID []byt
 	if peerPub.Curve != ke.privateKey.Curve {
 		return errors.New("sm2: peer public key is not expected/supported")
 	}
+	// The static key enters the computation as a curve point: refuse
+	// anything that is not one (this includes (0,0), the affine API's
+	// convention for the point at infinity, and out-of-range coordinates).
+	if peerPub.X == nil || peerPub.Y == nil || !peerPub.Curve.IsOnCurve(peerPub.X, peerPub.Y) {
+		return errors.New("sm2: invalid peer public key")
+	}
 
 	var err error
 	ke.peerPub = peerPub
